@@ -374,7 +374,7 @@ def prove_slot_released(src_root, ex: Explorer):
     otherwise an upload that went back to QUEUED is never started again.  manage_transfers must register the done-callback that clears
     exactly the slot it filled (C06.assigns / C06.callbacks); discharged here too because the selection contract depends on it."""
     from contracts import C06
-    C06.prove_manage_assigns(src_root, ex)
+    C06.prove_manage_assigns(src_root, ex, liveness=True)
     C06.prove_done_callbacks(src_root, ex)
     for ob in ex.obligations:
         if ob.name.startswith('C06.'):
